@@ -40,6 +40,7 @@ theorem T.clear_modify (side : Side) (m : Msg) : ∀ t : T, (t.modify side m).1.
     split
     · simp [T.clear, T.clear_modify side m t]
     · simp [T.clear, T.clear_modify side m f]
+  | .hide t => by simp [T.modify, T.clear]
 theorem TL.clear_modify (side : Side) (m : Msg) (agg : Bool) : ∀ l : TL, (l.modify side m agg).1.clear = l.clear
   | .nil => by simp [TL.modify]
   | .cons t l => by
@@ -59,6 +60,7 @@ theorem T.reset_eq_clear (side : Side) : ∀ t : T, t.reset side = t.clear
   | .filter c t f => by
     simp [T.reset, T.clear, (reset_visits_all side).1, (reset_visits_all side).2,
       T.reset_eq_clear side t, T.reset_eq_clear side f]
+  | .hide t => by simp [T.reset, T.clear]
 theorem TL.reset_eq_clear (side : Side) : ∀ l : TL, l.reset side = l.clear
   | .nil => by simp [TL.reset, TL.clear]
   | .cons t l => by simp [TL.reset, TL.clear, T.reset_eq_clear side t, TL.reset_eq_clear side l]
@@ -72,6 +74,7 @@ theorem T.clear_clear : ∀ t : T, t.clear.clear = t.clear
   | .fail => by simp [T.clear]
   | .group agg ms => by simp [T.clear, TL.clear_clear ms]
   | .filter c t f => by simp [T.clear, T.clear_clear t, T.clear_clear f]
+  | .hide t => by simp [T.clear]
 theorem TL.clear_clear : ∀ l : TL, l.clear.clear = l.clear
   | .nil => by simp [TL.clear]
   | .cons t l => by simp [TL.clear, T.clear_clear t, TL.clear_clear l]
@@ -85,6 +88,7 @@ theorem T.errors_clear (side : Side) (m : Msg) : ∀ t : T, t.clear.errors side 
   | .fail => by simp [T.clear, T.errors]
   | .group agg ms => by simp [T.clear, T.errors, TL.errors_clear side m agg ms]
   | .filter c t f => by simp [T.clear, T.errors, T.errors_clear side m t, T.errors_clear side m f]
+  | .hide t => by simp [T.clear, T.errors]
 theorem TL.errors_clear (side : Side) (m : Msg) (agg : Bool) : ∀ l : TL, l.clear.errors side m agg = l.errors side m agg
   | .nil => by simp [TL.clear, TL.errors]
   | .cons t l => by simp [TL.clear, TL.errors, T.errors_clear side m t, TL.errors_clear side m agg l]
@@ -98,6 +102,7 @@ theorem T.spec_clear (side : Side) : ∀ (t : T) (ms : List Msg), t.clear.spec s
   | .fail, ms => by simp [T.clear, T.spec]
   | .group agg l, ms => by simp [T.clear, T.spec, TL.spec_clear side agg l ms]
   | .filter c t f, ms => by simp [T.clear, T.spec, T.spec_clear side t, T.spec_clear side f]
+  | .hide t, ms => by simp [T.clear, T.spec]
 theorem TL.spec_clear (side : Side) (agg : Bool) : ∀ (l : TL) (ms : List Msg), l.clear.spec side agg ms = l.spec side agg ms
   | .nil, ms => by simp [TL.clear, TL.spec]
   | .cons t l, ms => by simp [TL.clear, TL.spec, T.spec_clear side t, TL.spec_clear side agg l, T.errors_clear side]
@@ -124,6 +129,7 @@ theorem T.modify_snd (side : Side) (m : Msg) : ∀ t : T, (t.modify side m).2 = 
     split
     · simp [T.modify_snd side m t]
     · simp [T.modify_snd side m f]
+  | .hide t => by simp [T.modify, T.errors]
 theorem TL.modify_snd (side : Side) (m : Msg) (agg : Bool) : ∀ l : TL, (l.modify side m agg).2 = l.errors side m agg
   | .nil => by simp [TL.modify, TL.errors]
   | .cons t l => by
@@ -147,6 +153,7 @@ def T.tracks (side : Side) : T → List Msg → Prop
   | .group agg l, ms => l.tracks side agg ms
   | .filter c t f, ms =>
     t.tracks side (ms.filter (fun m => c.holds side m)) ∧ f.tracks side (ms.filter (fun m => !c.holds side m))
+  | .hide _, _ => True
 def TL.tracks (side : Side) (agg : Bool) : TL → List Msg → Prop
   | .nil, _ => True
   | .cons t l, ms => t.tracks side ms ∧ l.tracks side agg (ms.filter (fun m => agg || !t.errors side m))
@@ -160,6 +167,7 @@ theorem T.tracks_clear (side : Side) : ∀ t : T, t.clear.tracks side []
   | .fail => by simp [T.clear, T.tracks]
   | .group agg ms => by simpa [T.clear, T.tracks] using TL.tracks_clear side agg ms
   | .filter c t f => by simpa [T.clear, T.tracks] using ⟨T.tracks_clear side t, T.tracks_clear side f⟩
+  | .hide t => by simp [T.clear, T.tracks]
 theorem TL.tracks_clear (side : Side) (agg : Bool) : ∀ l : TL, l.clear.tracks side agg []
   | .nil => by simp [TL.clear, TL.tracks]
   | .cons t l => by simpa [TL.clear, TL.tracks] using ⟨T.tracks_clear side t, TL.tracks_clear side agg l⟩
@@ -210,6 +218,7 @@ theorem T.tracks_modify (side : Side) (m : Msg) : ∀ (t : T) (ms : List Msg),
       exact ⟨h.1, T.tracks_modify side m f _ h.2⟩
     · simp only [if_true, T.tracks, filter_snoc, hc, Bool.not_true, Bool.false_eq_true, if_false, List.append_nil]
       exact ⟨T.tracks_modify side m t _ h.1, h.2⟩
+  | .hide t, ms, _ => by simp [T.modify, T.tracks]
 theorem TL.tracks_modify (side : Side) (m : Msg) (agg : Bool) : ∀ (l : TL) (ms : List Msg),
     l.tracks side agg ms → (l.modify side m agg).1.tracks side agg (ms ++ [m])
   | .nil, ms, _ => by simp [TL.modify, TL.tracks]
@@ -279,6 +288,7 @@ theorem T.verify_spec (side : Side) : ∀ (t : T) (ms : List Msg), t.tracks side
     simp only [T.verify, T.spec, errsOf_wrap, elseFirst]
     rcases visits_perm side with hv | hv <;>
       simp [hv, addOpt_eq, ht, hf]
+  | .hide t, ms, _ => by simp [T.verify, T.spec, errsOf]
 theorem TL.verify_spec (side : Side) (agg : Bool) : ∀ (l : TL) (ms : List Msg), l.tracks side agg ms →
     l.verify side = (l.spec side agg ms).map .one
   | .nil, ms, _ => by simp [TL.verify, TL.spec]
@@ -306,6 +316,7 @@ theorem T.modify_api (side : Side) (m : Msg) (ha : m.api = true) : ∀ t : T, (t
     split
     · simp [T.modify_api side m ha t]
     · simp [T.modify_api side m ha f]
+  | .hide t => by simp [T.modify]
 theorem TL.modify_api (side : Side) (m : Msg) (ha : m.api = true) (agg : Bool) : ∀ l : TL, (l.modify side m agg).1 = l
   | .nil => by simp [TL.modify]
   | .cons t l => by
@@ -353,6 +364,12 @@ theorem Cfg.compile_fresh (side : Side) : ∀ (c : Cfg) (t : T), c.compile side 
           | none => simp [T.clear]
           | some x => simpa using Cfg.compile_fresh side ff x hof
         simp [T.clear, h1, h2]
+  | .prio sc ms, t, h => by
+    simp only [Cfg.compile] at h
+    split at h
+    · cases h
+    · split at h <;> simp at h
+      subst h; simp [T.clear]
   | .absent, t, h => by simp [Cfg.compile] at h
 theorem CfgL.compile_fresh (side : Side) : ∀ (c : CfgL) (l : TL), c.compile side = some l → l.clear = l
   | .nil, l, h => by simp [CfgL.compile] at h; subst h; simp [TL.clear]
